@@ -22,7 +22,8 @@ RULE = ('simulated NLA / CHIC libraries on 1-4 contigs with molecules whose site
         'unmapped pairs; compared runs: serial CLI vs --multiprocess (1..8 workers, seeded worker delays) vs tiling API with '
         'bp_per_segment in {500..20000}, bp_per_job in {1..50000}, fragment_size >= longest simulated fragment, pool on/off. '
         'Non-trivial = library with a true molecule of >=2 fragments whose site is within 1 bp of a bin edge of the run; '
-        'distinct = distinct (library seed, run configuration).')
+        'distinct = distinct (library seed, run configuration).'
+        ' Plus contig names containing each other with runs restricted by -contig, tiles of 100 / 150 bp (smaller than a fragment), an independent ejection interval per run.')
 ASSUMPTIONS = ['fetch margins (fragment_size) are at least the longest simulated fragment (precondition of the property)',
                'per-run molecule identifiers (mi), the per-job index (ix) and the @PG header may differ',
                'worker schedules are sampled (distinct completion orders observed are counted)']
